@@ -575,7 +575,7 @@ def outer_dense(ctx, da, scheds, extra_progs):
     n = 0
     for src in progs:
         def go(sched):
-            env = B.chibi_env(da, {"CHIBI_VERIF_GC": sched, "CHIBI_VERIF_AUDIT": "1", "C02_NO_BOOT_GC": "1"} if sched else {"C02_NO_BOOT_GC": "1"})
+            env = B.chibi_env(da, {"CHIBI_VERIF_GC": sched, "CHIBI_VERIF_AUDIT": "1" if (sched.startswith("seed") or ctx.thorough) else "0", "C02_NO_BOOT_GC": "1"} if sched else {"C02_NO_BOOT_GC": "1"})
             try:
                 r = subprocess.run([emb, src, "/dev/null"], capture_output=True, text=True, env=env, timeout=1500)
                 return r.returncode, r.stdout, r.stderr
@@ -725,7 +725,7 @@ def run(ctx):
     if ctx.thorough:
         ni, si, no, so, ns, dense = 12, 8, 6, 6, 8, None
     else:
-        ni, si, no, so, ns, dense = 2, 5, 3, 4, 3, None
+        ni, si, no, so, ns, dense = 2, 4, 3, 4, 3, None
     import time
     t0 = time.time()
     nc = inner(ctx, d, exe, facts, ni, si, only_noimport=partial)
